@@ -70,7 +70,14 @@ impl DebugServer {
         let thread = self.thread.unwrap();
 
         // The thread is most likely blocked waiting for a debugger to connect: connect to it ourselves so it gets to see the flag
+        // A session that is still busy by then (a debugger that attached while the language server was shutting down, a step
+        // over a subroutine that never returns) does not keep the process alive: the language client is gone
+        let deadline = std::time::Instant::now() + std::time::Duration::from_secs(2);
         while !thread.is_finished() {
+            if std::time::Instant::now() > deadline {
+                log::info!("Debug adapter is still busy, leaving it behind");
+                return Ok(());
+            }
             if let Some(port) = self.port {
                 let _ = std::net::TcpStream::connect(("127.0.0.1", port));
             }
